@@ -270,6 +270,39 @@ impl Translator {
     }
 }
 
+/// Verification hooks: one step of the translator from a chosen address
+/// counter. Add-only, never compiled by default.
+#[cfg(any(kani, feature = "verif-hooks"))]
+pub mod verif_hooks {
+    use super::{ByteOrLabel, Translator};
+    use crate::parser::{Instruction, Programsize, Stacksize};
+
+    /// What one call of the real `push_instruction` did.
+    pub struct Step {
+        /// Address counter after the instruction.
+        pub next_addr: u8,
+        /// What was emitted for the instruction.
+        pub emitted: Vec<ByteOrLabel>,
+        pub stacksize: Stacksize,
+        pub programsize: Programsize,
+    }
+
+    /// Run the real, private `Translator::push_instruction` on a fresh
+    /// translator whose address counter has been set to `next_addr`.
+    pub fn step(next_addr: u8, inst: &Instruction) -> Step {
+        let mut tr = Translator::new();
+        tr.next_addr = next_addr;
+        tr.push_instruction(inst, &None);
+        let (_, emitted) = tr.bytes.pop().expect("push_instruction pushes one line");
+        Step {
+            next_addr: tr.next_addr,
+            emitted,
+            stacksize: tr.stacksize,
+            programsize: tr.programsize,
+        }
+    }
+}
+
 /// Create the necessary [`ByteOrLabel`]s for a relative jump with the given condition.
 fn relative_jump(cond: u8, label: Label, curr_addr: u8) -> Vec<ByteOrLabel> {
     use ByteOrLabel::*;
